@@ -14,6 +14,21 @@ fn schema_sig(rel: &Relation) -> Vec<(String, String)> { rel.schema().iter().map
 
 fn compile(w: &World, sql: &str) -> Option<Relation> { match catch_unwind(AssertUnwindSafe(|| to_relation(w, sql))) { Ok(Ok(r)) => Some(r), _ => None } }
 
+/// select lists with unnamed items (implicit aliases), some of them repeated
+fn unnamed_query(r: &mut Rng) -> String {
+    let (t, cols): (&str, Vec<&str>) = match r.below(3) { 0 => ("users", vec!["age", "income", "id"]), 1 => ("orders", vec!["amount", "id", "user_id"]), _ => ("items", vec!["price", "order_id"]) };
+    let agg = r.chance(1, 3);
+    let mut items: Vec<String> = vec![];
+    for _ in 0..r.range(1, 4) {
+        let c = *r.pick(&cols);
+        let e = match r.below(4) { 0 => format!("t.{} + {}", c, r.range(1, 3)), 1 => format!("t.{} * 2", c), 2 => format!("CASE WHEN t.{} > 3 THEN 1 ELSE 0 END", c), _ => format!("t.{}", c) };
+        items.push(if agg { format!("{}({})", r.pick(&["SUM", "COUNT", "MAX", "AVG"]), e) } else { e });
+    }
+    if r.chance(1, 2) { let k = r.below(items.len() as u64) as usize; let dup = items[k].clone(); items.push(dup); }
+    if r.chance(1, 3) { let k = r.below(items.len() as u64) as usize; items[k] = format!("{} AS named{}", items[k], k); }
+    format!("SELECT {} FROM {} AS t{}", items.join(", "), t, if r.chance(1, 3) { " WHERE t.id > 3" } else { "" }).replace("t.id > 3", if t == "items" { "t.order_id > 3" } else { "t.id > 3" })
+}
+
 pub fn run(outdir: &str, seed: u64, thorough: bool) -> serde_json::Value {
     let w = world();
     let mut rng = Rng::new(seed ^ 0xC16);
@@ -55,7 +70,7 @@ pub fn run(outdir: &str, seed: u64, thorough: bool) -> serde_json::Value {
         attempts += 1;
         let mut r = rng.fork();
         let depth = r.range(0, 2) as u32;
-        let sql = if attempts <= targeted.len() { targeted[attempts - 1].to_string() } else { let mut g = QGen::new(&mut r, &w.specs); g.query(depth).0 };
+        let sql = if attempts <= targeted.len() { targeted[attempts - 1].to_string() } else if r.chance(1, 4) { unnamed_query(&mut r) } else { let mut g = QGen::new(&mut r, &w.specs); g.query(depth).0 };
         let class = if sql.to_uppercase().contains("RANDOM()") { "random" } else { "plain" };
         let Some(rel1) = compile(&w, &sql) else { st.bump("not_compiled"); continue };
         made += 1; st.evaluations += 1; st.distinct.insert(hash_str(&sql));
@@ -111,7 +126,7 @@ pub fn run(outdir: &str, seed: u64, thorough: bool) -> serde_json::Value {
         }
         if made <= 2 { st.sample(json!({"query":sql,"name":rel1.name()})); }
     }
-    let mut out = st.to_json("generated queries of the supported fragment (and two with RANDOM()): compiled, compiled again after 0-5 counter requests / another compilation / a reset, compiled in 4 threads with interleaved other compilations, rendered twice, rendered text re-parsed (schema names, order, types; results on SQLite) and re-parsed once more; distinct by query text");
+    let mut out = st.to_json("generated queries of the supported fragment, select lists with unnamed and repeated items (implicit aliases), and two queries with RANDOM(): compiled, compiled again after 0-5 counter requests / another compilation / a reset, compiled in 4 threads with interleaved other compilations, rendered twice, rendered text re-parsed (schema names, order, types; results on SQLite) and re-parsed once more; distinct by query text");
     out["shards"] = json!({"c16_namer": f1, "c16_encode": f2});
     out
 }
